@@ -49,6 +49,8 @@ class VLoop(asyncio.SelectorEventLoop):
         if self.cycle > self.budget:
             self.failed = "budget"
             raise BudgetExceeded(f"more than {self.budget} loop cycles")
+        if self.monitor is not None:
+            self.monitor(self)      # may cancel timers / queue callbacks: run it before judging idleness
         sched = self._scheduled
         while sched and sched[0]._cancelled:
             h = heapq.heappop(sched)
@@ -69,8 +71,6 @@ class VLoop(asyncio.SelectorEventLoop):
                 continue
             self.failed = "deadlock"
             raise Deadlock("no ready callback and no timer")
-        if self.monitor is not None:
-            self.monitor(self)
         super()._run_once()
 
     # what anyio (or anyone) left behind; used by C05/C06
